@@ -238,6 +238,25 @@ func phaseFamily(env *Env) error {
 		if rng.Intn(5) == 0 {
 			oe.Seqs = [][]int{b2i([]byte("CCCCCC")), b2i([]byte("ACGTACGTA"))}
 		}
+		if rng.Intn(3) == 0 {
+			// the longest ORF touches an end of its read (no flank after the stop codon, or before the start codon; on the
+			// minus strand the read then starts with the reverse-complemented stop codon), next to a shorter one with flanks
+			long := randORF(rng, 9+rng.Intn(6))
+			switch rng.Intn(3) {
+			case 0:
+				long = append(randNt(rng, rng.Intn(6)), long...)
+			case 1:
+				long = append(long, randNt(rng, 1+rng.Intn(2))...)
+			}
+			if oe.Reverse && rng.Intn(2) == 0 {
+				long = revcompInts(long)
+			}
+			short := append(append(randNt(rng, 2+rng.Intn(5)), randORF(rng, 3)...), randNt(rng, 2+rng.Intn(5))...)
+			oe.Seqs = [][]int{short, long}
+			if rng.Intn(2) == 0 {
+				oe.Seqs = [][]int{long, short}
+			}
+		}
 		func() {
 			defer func() {
 				if r := recover(); r != nil {
